@@ -15,7 +15,8 @@ import (
 )
 
 // Universe probed after every step.
-var Universe = obs.Universe{VertexIDs: append(append([]string{}, hist.VIDs...), "ghost"), EdgeIDs: hist.EIDs, VLabels: hist.VLabels, ELabels: hist.ELabels, Traversals: true}
+var Universe = obs.Universe{VertexIDs: append(append([]string{}, hist.VIDs...), "ghost"), EdgeIDs: hist.EIDs,
+	VLabels: []string{"A", "AB", "B", "C"}, ELabels: []string{"x", "xy", "y", "z"}, Traversals: true}
 
 // Env provides the store. Reopen (may be nil) closes and reopens it and returns the new
 // handle; it is called for ops of kind "reopen".
